@@ -146,7 +146,18 @@ func RunScanLogic(fsys FileSystem, pkgLoader PackageLoader, target string, opts 
 		if allAlerts[i].MatchedFunction != allAlerts[j].MatchedFunction {
 			return allAlerts[i].MatchedFunction < allAlerts[j].MatchedFunction
 		}
-		return allAlerts[i].SignatureName < allAlerts[j].SignatureName
+		if allAlerts[i].SignatureName != allAlerts[j].SignatureName {
+			return allAlerts[i].SignatureName < allAlerts[j].SignatureName
+		}
+		// Total order: alerts arrive from worker goroutines in scheduling order, so ties on
+		// (function, signature name) must be broken by the remaining visible fields.
+		if allAlerts[i].SignatureID != allAlerts[j].SignatureID {
+			return allAlerts[i].SignatureID < allAlerts[j].SignatureID
+		}
+		if allAlerts[i].Confidence != allAlerts[j].Confidence {
+			return allAlerts[i].Confidence > allAlerts[j].Confidence
+		}
+		return allAlerts[i].Severity < allAlerts[j].Severity
 	})
 
 	summary := models.ScanSummary{TotalAlerts: len(allAlerts)}
